@@ -626,9 +626,56 @@ def r7(ctx):
         if isinstance(n, ast.If) and u(n.test) in ("ctok.token == 'defined'",):
             dblock = n
     ctx.require(dblock is not None, "MacroExpander.expand: `defined` block not found")
-    txt = u(dblock)
-    ok = "if tok.token == '('" in txt and "ident = tok" in txt and "self.replace_tok(self.defined(ident))" in txt and isinstance(dblock.body[-1], ast.Continue)
-    ctx.soft(ok, "preprocessor:MacroExpander.expand:defined-both-forms", "both `defined X` and `defined(X)` must be replaced by the platform's answer without expanding X", exp.loc(dblock))
+    # table specification over an abstract token stream T0 T1 T2 ... that follows the `defined` keyword: peek_tok() is
+    # the token at the cursor, consume_tok() is that token and moves the cursor, replace_tok(x) overwrites the token at
+    # the cursor.  `defined X`: T0 is X; nothing is consumed and T0 is overwritten by defined(T0).  `defined(X)`: T0 is
+    # `(`, T1 is X, T2 must be `)`; two tokens are consumed and T2 is overwritten by defined(T1).  In both forms the
+    # operand is an Identifier and is never looked up as a macro.
+    class DH(Hooks):
+        def begin_path(self):
+            self.pos = 0
+
+        def end_path(self):
+            return self.pos
+
+        def on_call(self, call, ftext, args, kwargs, st):
+            if ftext == "self.peek_tok" and not args:
+                return Sym(f"T{self.pos}")
+            if ftext == "self.consume_tok" and not args:
+                self.pos += 1
+                return Sym(f"T{self.pos - 1}")
+            if ftext == "self.replace_tok" and len(args) == 1:
+                st.effect("REPLACE", self.pos, args[0])
+                return None
+            if ftext == "self.defined" and len(args) == 1:
+                return Sym(f"DEFINED({_vt(args[0])})")
+            return NOTHING
+
+    wrap = ast.parse("def _f():\n    pass").body[0]
+    wrap.body = [x for x in dblock.body if not isinstance(x, ast.Continue)]
+    from ..decision import FUNC_INDEX as _FI
+
+    _FI[id(wrap)] = exp
+    n_forms = {"bare": 0, "paren": 0}
+    for p in Evaluator(DH()).paths(wrap):
+        at = {_vt(k): v for k, v in p.atoms.items()}
+        reps = [e for e in p.effects if e[0] == "REPLACE"]
+        if p.result[0] == "raise":
+            ctx.check(not reps, "preprocessor:MacroExpander.expand:defined-both-forms", "a malformed `defined` operand is rejected after the token stream was already rewritten", exp.loc(dblock))
+            continue
+        paren = next((v for k, v in at.items() if k in ("'(' Eq T0.token", "T0.token Eq '('")), None)
+        if paren is None:
+            raise AnalysisError(f"expand(): the `defined` block does not ask whether the next token is `(`: {p.describe()[:160]}")
+        form = "paren" if paren else "bare"
+        n_forms[form] += 1
+        X, at_pos, consumed = ("T1", 2, 2) if paren else ("T0", 0, 0)
+        ok = len(reps) == 1 and reps[0][1] == at_pos and _vt(reps[0][2]) == f"DEFINED({X})" and p.env.get("__model__") == consumed
+        ident_ok = at.get(f"isinstance({X}, Identifier)") is True
+        close_ok = (not paren) or any(v is True for k, v in at.items() if k in ("')' Eq T2.token", "T2.token Eq ')'")) or any(v is False for k, v in at.items() if k in ("')' NotEq T2.token",))
+        got = f"{len(reps)} replacement(s) {[(e[1], _vt(e[2])) for e in reps]}, {p.env.get('__model__')} token(s) consumed"
+        ctx.check(ok and ident_ok and close_ok, f"preprocessor:MacroExpander.expand:defined-both-forms:{form}", f"`defined {'(X)' if paren else 'X'}`: the operand {X} must be an Identifier{', followed by `)`,' if paren else ''} {consumed} token(s) are consumed and the token at position {at_pos} is overwritten by defined({X}) - so that exactly the operator's operand disappears and the tokens after it stay: {got}", exp.loc(dblock))
+    if not (n_forms["bare"] and n_forms["paren"]):
+        raise AnalysisError(f"expand(): `defined` forms understood: {n_forms}")
     # defined() -> is_defined(str(identifier)) numerical constant
     d = repo.func("preprocessor", "MacroExpander.defined")
     # table specification: defined(X) is a numerical constant placed at X and holding what the platform answers for X's name
